@@ -350,7 +350,14 @@ def custom_classes_case(rec, pvl, dialect, cfg, module, text, wit):
     if got != text and isinstance(got, str) and "{" in text:
         # the elements of a set may be written in another order
         from .c07 import tokens_outside_quotes
-        if tokens_outside_quotes(got) == tokens_outside_quotes(text):
+
+        def canon(t):
+            # another element order moves the line breaks of wrapped text
+            # strings: white space runs inside quotes are compared as one blank
+            t = re.sub(r'"[^"]*"|\'[^\']*\'',
+                       lambda m: re.sub(r"\s+", " ", m.group(0)), t)
+            return tokens_outside_quotes(t)
+        if canon(got) == canon(text):
             return
     if got != text:
         rec.violation(CHECK, dialect, "custom-container-classes-change-the-text", {},
